@@ -1,6 +1,6 @@
 import Proofs.CoSections
 import Proofs.CoQuery
-/-! C16 — the four generators seen uniformly: the local invariant `CoOk` of a generator state, its
+/-! C16 — the generators seen uniformly: the local invariant `CoOk` of a generator state, its
     stability under foreign sections, and the specification `CoSec` of one section of any generator. -/
 namespace Traph
 open State Layout
@@ -16,6 +16,7 @@ def CoSt.todo : CoSt → List (LRU × Bool × Bool)
 def CoSt.isWriter : CoSt → Prop
   | .pages _ => False
   | .net _ => False
+  | .query _ => False
   | _ => True
 
 /-- a rule installation that has not started has a complete LRU as its anchor (non-empty, spelled entirely by
@@ -133,6 +134,29 @@ theorem resume_net_stopped (s : State) (n : NetSt)
   | done a => simp only [CoSt.resume, h]
   | failed e => simp only [CoSt.resume, h]
 
+theorem resume_query_state (s : State) (q : QSt) : ((CoSt.query q).resume s).1 = s := rfl
+
+theorem resume_query_out (s : State) (q : QSt) : ((CoSt.query q).resume s).2.2 = (q.resume s).2 := by
+  rcases h : q.resume s with ⟨q1, o⟩
+  simp only [CoSt.resume, h]
+
+theorem resume_query_yielded (s : State) (q : QSt) (ho : (q.resume s).2 = .yielded) :
+    ((CoSt.query q).resume s).2.1 = .query (q.resume s).1 := by
+  rcases h : q.resume s with ⟨q1, o⟩
+  rw [h] at ho
+  simp only at ho
+  subst ho
+  simp only [CoSt.resume, h]
+
+theorem resume_query_stopped (s : State) (q : QSt) (ho : (q.resume s).2 ≠ .yielded) :
+    ((CoSt.query q).resume s).2.1 = .finished := by
+  rcases h : q.resume s with ⟨q1, o⟩
+  rw [h] at ho
+  cases o with
+  | yielded => exact absurd rfl ho
+  | done a => simp only [CoSt.resume, h]
+  | failed e => simp only [CoSt.resume, h]
+
 /-- a generator whose `next()` did not yield is exhausted -/
 theorem resume_not_yielded (s : State) (c : CoSt) (h : (c.resume s).2.2 ≠ .yielded) :
     (c.resume s).2.1 = .finished := by
@@ -141,6 +165,7 @@ theorem resume_not_yielded (s : State) (c : CoSt) (h : (c.resume s).2.2 ≠ .yie
   | rule r => rw [resume_rule_out] at h; exact resume_rule_stopped s r h
   | pages p => rw [resume_pages_out] at h; exact resume_pages_stopped s p h
   | net n => rw [resume_net_out] at h; exact resume_net_stopped s n h
+  | query q => rw [resume_query_out] at h; exact resume_query_stopped s q h
   | finished => rfl
 
 /-- a generator that yielded is still a generator of the same kind -/
@@ -159,6 +184,9 @@ theorem resume_yielded_kind (s : State) (c : CoSt) (h : (c.resume s).2.2 = .yiel
     exact ⟨fun hw => absurd hw id, fun _ => trivial, fun e => by cases e⟩
   | net n =>
     rw [resume_net_out] at h; rw [resume_net_yielded s n h]
+    exact ⟨fun hw => absurd hw id, fun hq => absurd hq id, fun e => by cases e⟩
+  | query q =>
+    rw [resume_query_out] at h; rw [resume_query_yielded s q h]
     exact ⟨fun hw => absurd hw id, fun hq => absurd hq id, fun e => by cases e⟩
   | finished => simp [CoSt.resume] at h
 
@@ -179,6 +207,7 @@ theorem CoOk.mono {s s' : State} {t t' : T} {c : CoSt}
   | rule r => exact RuleOk.mono h x le hc
   | pages p => exact PagesOk.mono h x le hc
   | net n => trivial
+  | query q => trivial
   | finished => trivial
 
 /-- what one section of a generator does -/
@@ -285,6 +314,20 @@ theorem resume_sec {s : State} {t : T} (h : Shape s t) (c : CoSt) : ∃ t', CoSe
     · intro ho
       rw [resume_net_out] at ho
       rw [resume_net_yielded s n ho]
+      rfl
+  | query q =>
+    refine ⟨t, Ext.refl h, Le.refl s, CoLinkStep.refl s, fun ok _ => ⟨ok, ?_, fun _ _ hw => absurd hw id⟩,
+      fun hi _ => ⟨[], [], Adds.refl hi, rfl, ?_, ?_, fun _ _ => rfl,
+      fun _ _ hw => absurd hw id, fun _ _ hq => absurd hq id, fun _ _ hq => absurd hq id⟩⟩
+    · by_cases ho : (q.resume s).2 = .yielded
+      · rw [resume_query_yielded s q ho]; trivial
+      · rw [resume_query_stopped s q ho]; trivial
+    · by_cases ho : (q.resume s).2 = .yielded
+      · rw [resume_query_yielded s q ho]; trivial
+      · rw [resume_query_stopped s q ho]; trivial
+    · intro ho
+      rw [resume_query_out] at ho
+      rw [resume_query_yielded s q ho]
       rfl
   | finished =>
     refine ⟨t, Ext.refl h, Le.refl s, CoLinkStep.refl s, fun ok _ => ⟨ok, trivial, fun e he _ hk => ?_⟩,
